@@ -48,6 +48,7 @@ func init() {
 			ruleNullErrorIsAbsent(c)
 			c.Clause("C04-D5")
 			ruleBatchOrder(c)
+			ruleDeliveryLoopVisitsAll(c)
 		},
 	})
 	register(&Def{
@@ -61,6 +62,8 @@ func init() {
 			c.Clause("C05-D1")
 			ruleTokenWrite(c, "client")
 			ruleTokenClose(c)
+			ruleFirstWaiterReleases(c)
+			ruleDeliveryLoopVisitsAll(c)
 			ruleTokenBuffered(c)
 			c.Clause("C05-D2")
 			ruleTokenRegister(c, "client")
@@ -68,6 +71,7 @@ func init() {
 			ruleStopCancelsTable(c, "client", c.M.CPending, c.M.RCancel, "pending requests")
 			ruleStopCallsField(c, "client", c.M.CCbcancel, "callback handler contexts")
 			ruleStopOnce(c, "client")
+			ruleStopAlwaysCloses(c, "client")
 			ruleRunCoupled(c, "client")
 			c.Clause("C05-D3")
 			ruleRunGuardClient(c)
@@ -105,6 +109,7 @@ func init() {
 			ruleTokenRegister(c, "server")
 			ruleTokenBuffered(c)
 			ruleStopCancelsTable(c, "server", c.M.SCall, c.M.RCancel, "pending callbacks")
+			ruleCallbackTakeCompletes(c)
 			ruleLockField(c, "server", c.M.SCall, c.M.SCallID)
 			c.Clause("C09-D5/D6")
 			ruleReplyFilter(c)
